@@ -62,6 +62,17 @@ def _ceil8_form(e: ast.AST, se: SymEval, env: Dict[str, object]) -> Optional[Pol
     return None
 
 
+def filters_resolved_instance(model: Model, r2) -> None:
+    """Shared by C03-R2 and C18-R7."""
+    gf = model.func(T + "PDFStream.get_filters")
+    # "is it one entry or an array of them" is asked of the resolved value: /Filter and /DecodeParms may be indirect references
+    for t in [n for n in walk_no_nested(gf.node) if isinstance(n, ast.Call) and (dotted(n.func) or "") == "isinstance" and len(n.args) == 2 and isinstance(n.args[0], ast.Name) and unparse(n.args[1]) == "list"]:
+        nm_ = t.args[0].id
+        first = next((a for a in sorted((x for x in walk_no_nested(gf.node) if isinstance(x, ast.Assign) and any(isinstance(tt, ast.Name) and tt.id == nm_ for tt in x.targets)), key=lambda x: x.lineno)), None)
+        okres = first is not None and isinstance(first.value, ast.Call) and (dotted(first.value.func) or "") in ("resolve1", "list_value", "resolve_all")
+        r2.check(okres, site(gf, t), gf.qualname, f"{unparse(t)} tests a value that was resolved when it was read (`{unparse(first)[:70] if first is not None else '?'}`)", why=f"`{nm_}` is tested for being a list while it may still be an indirect reference: a reference to an array of parameter dictionaries is taken for a single entry, replicated per filter, and every copy resolves to the whole array - which is then no dictionary, so the predictor is silently skipped")
+
+
 def run(model: Model, rep: Report) -> None:
     rep.explanation = (
         "C03: decides the structural part of stream decoding: filter names and abbreviations (Tables 6/94) and the decoder each reaches, "
@@ -131,12 +142,13 @@ def run(model: Model, rep: Report) -> None:
         r1.check(got is not None and got[0] == "pass", site(dec), dec.qualname, f"{gname} data is passed through unchanged", why=f"reaches {got}")
 
     # ---------------------------------------------------------------- R2
-    r2 = rep.rule("C03-R2", "ORDER", "filter k is paired with parameter k (scalar parameters replicated); filters applied in list order, predictor after its own filter", 6)
+    r2 = rep.rule("C03-R2", "ORDER", "filter k is paired with parameter k (scalar parameters replicated); filters applied in list order, predictor after its own filter", 8)
     gf = model.func(T + "PDFStream.get_filters")
     src = unparse(gf.node).replace(" ", "")
     r2.check("returnlist(zip(resolved_filters,resolved_params))" in src and "resolved_filters=[resolve1(f)forfinfilters]" in src and "resolved_params=[resolve1(param)forparaminparams]" in src, site(gf), gf.qualname, "pairs = zip(resolved filters, resolved parameters) in order; indirect entries resolved", why="pairing changed")
     r2.check("params=[params]*len(filters)" in src and "filters=[filters]" in src, site(gf), gf.qualname, "a single filter / a single parameter dictionary is normalised to lists of equal length", why="normalisation changed")
     r2.check("self.get_any(('F','Filter'),[])" in src and "self.get_any(('DP','DecodeParms','FDecodeParms'),{})" in src, site(gf), gf.qualname, "Filter (F) and DecodeParms (DP, FDecodeParms) keys", why="keys changed")
+    filters_resolved_instance(model, r2)
     r2.check(_is_filters(loop.iter), site(dec, loop), dec.qualname, "decode walks get_filters() front to back, each stage feeding the next through `data`", why="iteration changed")
     pred_if = next((s for s in loop.body if isinstance(s, ast.If) and "'Predictor' in " + pvar in unparse(s.test)), None)
     okp = pred_if is not None and chain is not None and loop.body.index(pred_if) > loop.body.index(chain)
@@ -370,7 +382,7 @@ def _png_filters(model: Model, rep: Report, png: FuncInfo, rid: str = "C03-R5") 
 
 
 def _lzw(model: Model, rep: Report, rid: str = "C03-R7") -> None:
-    r7 = rep.rule(rid, "WRITESET", "LZW decoder: the clear-table code re-establishes the whole initial dictionary state; code widths grow at 511/1023/2047 (7.4.4.2)", 4)
+    r7 = rep.rule(rid, "WRITESET", "LZW decoder: the clear-table code re-establishes the whole initial dictionary state; code widths grow at 511/1023/2047 (7.4.4.2)", 6)
     init = model.func("pdfminer.lzw.LZWDecoder.__init__")
     feed = model.func("pdfminer.lzw.LZWDecoder.feed")
     from ..util import self_fields_written
@@ -393,6 +405,19 @@ def _lzw(model: Model, rep: Report, rid: str = "C03-R7") -> None:
     r7.check(written.get("nbits") == init_fields.get("nbits") == "9", site(feed, clear), feed.qualname, "after a clear the code width is 9 bits again, as at the start", why=f"clear sets nbits={written.get('nbits')}, __init__ sets {init_fields.get('nbits')}")
     src = "".join(unparse(feed.node).split())
     r7.check("iftable_length==511:self.nbits=10eliftable_length==1023:self.nbits=11eliftable_length==2047:self.nbits=12" in src, site(feed), feed.qualname, "the code width grows to 10/11/12 bits when the table reaches 511/1023/2047 entries (early change)", why="width thresholds changed")
+    # every entry that is added passes the width test before feed returns: the width must follow the table size on every way
+    g7 = build_cfg(feed.node, exc_edges=False)
+    appends = [n for n in g7.nodes if n.kind == "stmt" and n.ast is not None and contains_call(n.ast, lambda c: (dotted(c.func) or "") == "self.table.append" and not (c.args and isinstance(c.args[0], ast.Constant) and c.args[0].value is None))]
+    if len(appends) < 2:
+        raise AnchorMissing("LZWDecoder.feed: the two dictionary additions not found")
+    rets7 = [n.id for n in g7.nodes if n.kind == "stmt" and isinstance(n.ast, ast.Return)]
+
+    def _width_test(nd) -> bool:
+        return nd.kind == "test" and nd.ast is not None and any(isinstance(c, ast.Constant) and c.value == 511 for c in ast.walk(nd.ast))
+
+    for a7 in appends:
+        w7 = g7.all_path_pass(a7.id, _width_test, until=rets7)
+        r7.check(w7 is None, site(feed, a7.ast), feed.qualname, f"`{unparse(a7.ast)[:60]}` : every way from this addition to the end of feed passes the 511/1023/2047 test", why="an entry is added and feed returns without looking at the table size: when that entry is the 511th, 1023rd or 2047th the code width stays as it was and everything after it is mis-framed")
     r7.check("self.table=[bytes((c,))forcinrange(256)]" in src and src.count("self.table.append(None)") == 2 and f"elif{feed.params[1]}==257:pass" in src, site(feed), feed.qualname, "the initial table has the 256 single bytes plus the clear (256) and EOD (257) slots", why="initial table changed")
     rb = model.func("pdfminer.lzw.LZWDecoder.readbits")
     s2 = "".join(unparse(rb.node).split())
